@@ -327,17 +327,6 @@ func createWriterWithCtx(obs kanzi.OutputBitStream, ctx map[string]any) (*Writer
 		return nil, &IOError{msg: err.Error(), code: kanzi.ERR_INVALID_PARAM}
 	}
 
-	// Names are accepted in any letter case but some codecs select their variant
-	// (TPAQX, ROLZX, ...) by comparing the context strings: store the canonical
-	// names, exactly what the Reader rebuilds from the header types.
-	if name, err := entropy.GetName(this.entropyType); err == nil {
-		ctx["entropy"] = name
-	}
-
-	if name, err := transform.GetName(this.transformType); err == nil {
-		ctx["transform"] = name
-	}
-
 	this.blockSize = int(bSize)
 	this.available = 0
 	nbBlocks := 0
@@ -377,6 +366,21 @@ func createWriterWithCtx(obs kanzi.OutputBitStream, ctx map[string]any) (*Writer
 
 	if this.headless, err = getCtxBool(ctx, "headerless", false, false, kanzi.ERR_INVALID_PARAM); err != nil {
 		return nil, err
+	}
+
+	if this.headless == false {
+		// Names are accepted in any letter case but some codecs select their variant
+		// (TPAQX, ROLZX, ...) by comparing the context strings: store the canonical
+		// names, exactly what the Reader rebuilds from the header types. Headerless
+		// streams keep the names as given on both sides, as they always did, so that
+		// existing headerless streams keep decoding with the parameters they were made with.
+		if name, err := entropy.GetName(this.entropyType); err == nil {
+			ctx["entropy"] = name
+		}
+
+		if name, err := transform.GetName(this.transformType); err == nil {
+			ctx["transform"] = name
+		}
 	}
 
 	if _, hasKey := ctx["skipBlocks"]; hasKey {
@@ -1275,10 +1279,6 @@ func (this *Reader) validateHeaderless() error {
 		if err != nil {
 			return &IOError{msg: err.Error(), code: kanzi.ERR_INVALID_PARAM}
 		}
-
-		if name, err := entropy.GetName(this.entropyType); err == nil {
-			this.ctx["entropy"] = name // canonical spelling
-		}
 	} else {
 		return &IOError{msg: "Missing entropy in headerless mode", code: kanzi.ERR_MISSING_PARAM}
 	}
@@ -1294,10 +1294,6 @@ func (this *Reader) validateHeaderless() error {
 
 		if err != nil {
 			return &IOError{msg: err.Error(), code: kanzi.ERR_INVALID_PARAM}
-		}
-
-		if name, err := transform.GetName(this.transformType); err == nil {
-			this.ctx["transform"] = name // canonical spelling
 		}
 	} else {
 		return &IOError{msg: "Missing transform in headerless mode", code: kanzi.ERR_MISSING_PARAM}
